@@ -278,13 +278,93 @@ def self_check(ctx, lib, roles):
     reach = callgraph.CallGraph(lib).reachable([rot.path])
     preds = []
     for b in lib.bodies:
-        if b.kind != "closure" or b.path not in reach:
+        if b.kind not in ("closure", "fn", "assoc_fn") or b.path not in reach or b.derived:
             continue
         names = [callee_name(t) or "" for _, t in b.calls()]
         if any(re.match(r"^regex::Regex::(?:find|find_iter|find_at|is_match|shortest_match|captures)", n) for n in names):
             preds.append(b)
-    if not ctx.floor("SCK-2", "closures evaluating the compiled pattern on a test case", len(preds), 1):
+    if not ctx.floor("SCK-2", "bodies evaluating the compiled pattern on a test case", len(preds), 1):
         return
+    # SCK-3: the verdict ranges over every test case
+    NARROW = re.compile(r"Iterator::(?:filter|filter_map|skip|skip_while|take|take_while|step_by|nth|last|find|find_map|position|peekable|map_while|scan)$|::dedup\w*$|::unique\w*$")
+    for b in preds:
+        if b.kind != "closure":
+            # loop form: the searched item is the item of a loop over the whole list (a parameter), the only early exit returns `false`
+            fi = guards.FnInfo.of(b)
+            loops = fi.cfg.natural_loops()
+            for bi, t in b.calls():
+                if not re.match(r"^regex::Regex::(?:find|find_iter|find_at|is_match|shortest_match|captures)", callee_name(t) or ""):
+                    continue
+                o = fi.defs.operand(t["args"][1]) if len(t["args"]) > 1 else None
+                nx = [x for x in local.walk(o) if x[0] == "call" and x[1].endswith("Iterator>::next") and len(x) > 3] if o is not None else []
+                inloop = [x for x in nx if any(x[3] in body and bi in body for body in loops.values())]
+                if not inloop:
+                    ctx.undecided("SCK-3", b.path, "the searched text is not the item of a loop over the test cases", b.loc(t.get("line")))
+                    continue
+                src = inloop[0]
+                narrowing = [y[1] for y in local.walk(src) if y[0] == "call" and NARROW.search(y[1])]
+                from_param = any(y[0] == "param" for y in local.walk(src))
+                if narrowing:
+                    ctx.violation("SCK-3", (b.path, "test cases skipped by " + narrowing[0].rsplit("::", 1)[-1]),
+                                  "the self-check only examines the test cases that pass %s" % narrowing[0], b.loc(t.get("line")))
+                elif not from_param:
+                    ctx.undecided("SCK-3", b.path, "cannot trace the examined items back to the list of test cases", b.loc(t.get("line")))
+                else:
+                    # a `continue`-like edge that skips the search inside the loop would be a guard of the search call other than the loop's own
+                    hdrs = [h for h, body in loops.items() if src[3] in body and bi in body]
+                    hdr = hdrs[0] if hdrs else None
+
+                    def before_call(gb):
+                        # is the guard's block reachable from the loop header without passing the search call (i.e. evaluated earlier in the same iteration)?
+                        if hdr is None:
+                            return True
+                        seen, st = {hdr}, [hdr]
+                        while st:
+                            x = st.pop()
+                            if x == gb:
+                                return True
+                            for y in fi.cfg.succ.get(x, []):
+                                if y not in seen and y != bi and y != hdr and y in loops[hdr]:
+                                    seen.add(y)
+                                    st.append(y)
+                        return False
+                    gs = [g for g in guards.guards(b, bi) if not g["loop"] and g["block"] != src[3] and before_call(g["block"])
+                          and not (local.peel(g["origin"])[0] == "discr" and any(y[0] == "call" and len(y) > 3 and y[3] == src[3] for y in local.walk(g["origin"])))]
+                    if gs:
+                        ctx.violation("SCK-3", (b.path, "search skipped under a condition"), "inside the loop the search is additionally guarded by %s: some test cases are not examined"
+                                      % [local.show(g["origin"])[:60] for g in gs], b.loc(t.get("line")))
+                    else:
+                        ctx.ok("SCK-3", b.path + ":loop over every test case", None, b.loc(t.get("line")))
+            continue
+        site = common.closure_site(lib, b)
+        if site is None:
+            ctx.undecided("SCK-3", b.path, "cannot find where the per-test-case predicate is applied", b.loc())
+            continue
+        parent, pd, _ = site
+        use = None
+        for bj, t2 in parent.calls():
+            ops = [pd.operand(a) for a in t2["args"]]
+            if any(local.peel(o2)[0] == "agg" and local.peel(o2)[1] == "closure" and local.peel(o2)[2] == b.path for o2 in ops):
+                use = (callee_name(t2) or "", ops, t2)
+        if use is None:
+            ctx.undecided("SCK-3", b.path, "cannot find where the per-test-case predicate is applied", b.loc())
+            continue
+        cal, ops, t2 = use
+        if parent.kind == "closure":
+            continue        # nested helper closure (e.g. is_some_and on the match): the outer one is judged
+        if not re.search(r"Iterator>?::all$", cal):
+            ctx.undecided("SCK-3", b.path, "the per-test-case predicate is applied by %s, not by Iterator::all" % cal, parent.loc(t2.get("line")))
+            continue
+        narrowing = [x[1] for x in local.walk(ops[0]) if x[0] == "call" and NARROW.search(x[1])]
+        from_param = any(x[0] == "param" for x in local.walk(ops[0]))
+        if narrowing:
+            ctx.violation("SCK-3", (parent.path, "test cases skipped by " + narrowing[0].rsplit("::", 1)[-1]),
+                          "the self-check only examines the test cases that pass %s: a test case that is filtered out is never searched, so a wrongly ordered alternation "
+                          "(possible as soon as class conversion makes one alternative match a prefix of an unrelated test case) goes unnoticed" % narrowing[0], parent.loc(t2.get("line")))
+        elif not from_param:
+            ctx.undecided("SCK-3", parent.path, "cannot trace the examined items back to the list of test cases", parent.loc(t2.get("line")))
+        else:
+            ctx.ok("SCK-3", parent.path + ":all(..) over every test case", None, parent.loc(t2.get("line")))
     for b in preds:
         names = set()
         work = [b]
@@ -384,6 +464,7 @@ def run(ctx):
     ctx.rule("ALT-2", "an alternation that becomes the result without a later self-check (last resort) is ordered by the chars its alternatives match, not by graphemes")
     ctx.rule("PIPE-1", "all stages of the entry function (minimised automaton, raw-trie automaton, last-resort alternation) consume the same converted cluster vector")
     ctx.rule("SCK-1", "the alternation-order self-check is guarded by the end-anchor setting alone (plus 'pattern compiled'): order is observable whenever '$' is absent")
+    ctx.rule("SCK-3", "the self-check's verdict is Iterator::all over the whole list of test cases (no filter/skip/take between the list and the predicate)")
     ctx.rule("SCK-2", "the per-test-case predicate of the self-check inspects the match extent (regex::Match accessor), not just a match count")
     ctx.assume("with '$' present a leftmost-first search on a member of the language ends at the end of the string (regex crate semantics)")
     ctx.assume("indent_regexp only adds indentation (its colour-independence is C15 IND-1; its content preservation is not decided)")
